@@ -428,6 +428,61 @@ def gen_rep_case(rng):
     return L
 
 
+def gen_rep_queue_case(rng):
+    """directed: several contexts (and the socket) hold requests that came over the same pipe; their replies meet a busy pipe --
+    blocking ones are queued behind it, non-blocking ones are refused (slot kept) and retried; the transport takes them one at a
+    time; queued replies are cancelled or lose their pipe; afterwards every context tries a second reply without a new request
+    (NNG_ESTATE, nothing more on the wire).  Application headers on every reply."""
+    g = G(rng)
+    L = g.lines
+    L.append("open s0 rep0")
+    n = rng.choice([2, 3, 3, 4])
+    tgts = ["s0"] if rng.random() < 0.5 else []
+    for k in range(n - len(tgts)):
+        L.append("ctx c%d s0" % k); g.ctxs.append("c%d" % k); tgts.append("c%d" % k)
+    L.append("conn s0 48"); g.npipes = 1
+    two = rng.random() < 0.3
+    if two:
+        L.append("conn s0 48"); g.npipes = 2
+    ids = []
+    for rnd in range(rng.choice([1, 1, 2])):
+        rng.shuffle(tgts)
+        for t in tgts:
+            rid = "%08x" % (0x80000000 | rng.randrange(1 << 31)); ids.append(rid)
+            L.append("inject p%d %s%s%s" % (rng.randrange(g.npipes) if two else 0, words(rng, rng.choice([0, 0, 1, 2])), rid, g.body("cc")))
+            L.append("recvnb %s" % t if rng.random() < 0.6 else "recv %s %s" % (t, g.aio()))
+        queued = {}          # target -> aio of a blocking reply (possibly waiting behind the busy pipe)
+        retry = []           # targets whose non-blocking reply may have been refused
+        for t in tgts:
+            h = app_hdr(rng, 0, g.npipes, ids[-4:])
+            if rng.random() < 0.7:
+                a = g.aio(); L.append("send %s %s %s %s" % (t, a, h, g.body("dd"))); queued[t] = a
+            else:
+                L.append("sendnb %s %s %s" % (t, h, g.body("dd"))); retry.append(t)
+        k = rng.random()
+        if k < 0.25 and queued:
+            t = rng.choice(list(queued)); L.append("cancel %s" % queued[t])
+        elif k < 0.35:
+            L.append("drop p0")
+        for _ in range(len(tgts) + 1):
+            for p in range(g.npipes):
+                L.append("sent p%d" % p)
+            if retry and rng.random() < 0.7:
+                t = retry.pop(0); L.append("sendnb %s %s %s" % (t, app_hdr(rng, 0, g.npipes, ids[-4:]), g.body("dd")))
+        # a second reply without a new request
+        for t in tgts:
+            if rng.random() < 0.8:
+                L.append("sendnb %s - %s" % (t, g.body("dd")) if rng.random() < 0.5 else "send %s %s %s %s" % (t, g.aio(), app_hdr(rng, 0, g.npipes, ids[-4:]), g.body("dd")))
+        for p in range(g.npipes):
+            L.append("sent p%d" % p)
+        L.append("poll")
+    if rng.random() < 0.4:
+        for c in g.ctxs:
+            L.append("ctxclose %s" % c)
+        L.append("close s0")
+    return L
+
+
 def gen_xreq_case(rng):
     g = G(rng)
     L = g.lines
@@ -944,6 +999,9 @@ FIXED_CASES = [
     ["open s0 rep0", "ctx c0 s0", "conn s0 48", "inject p0 0123456780000042cc01", "recvnb c0", "send c0 a0 80000099 dd01", "sent p0", "inject p0 80000043cc02",
      "recvnb s0", "sendnb s0 [P0]7654321080000043 dd02", "sent p0", "inject p0 80000044cc03", "recvnb c0", "inject p0 80000045cc04", "recvnb s0",
      "send c0 a1 80000045 dd03", "send s0 a2 80000044ffffffff00000001 dd04", "sent p0", "sent p0"],
+    # a reply queued behind a busy pipe has consumed its slot: once it is out, a second reply without a new request is refused
+    ["open s0 rep0", "ctx c0 s0", "ctx c1 s0", "conn s0 48", "inject p0 80000001cc01", "inject p0 80000002cc02", "recvnb c0", "recvnb c1",
+     "send c0 a0 - dd01", "send c1 a1 - dd02", "sent p0", "sent p0", "sendnb c1 - dd03", "send c1 a2 - dd04", "sent p0", "sendnb c0 - dd05"],
 ]
 # which known finding a crash of a FIXED_CASE means on a tree that does not have the repair
 FIXED_KEYS = {0: ("REQ_CLONE", "req-clone-policy"), 1: ("REQ_CLONE", "req-clone-policy"), 2: ("REQ_CLONE", "req-clone-policy"),
@@ -952,7 +1010,7 @@ FIXED_KEYS = {0: ("REQ_CLONE", "req-clone-policy"), 1: ("REQ_CLONE", "req-clone-
 
 def gen_case(rng, i, flags):
     full = flags.get("REQ_CLONE") and flags.get("REQ_CANCEL_SEND")
-    w = i % 12
+    w = i % 13
     if w < 4:
         return gen_req_case(rng, allow_opt_change=bool(full), allow_cancel_send=bool(full))
     if w < 6:
@@ -960,6 +1018,8 @@ def gen_case(rng, i, flags):
     if w < 9:
         return gen_rep_case(rng)
     if w < 10:
+        return gen_rep_queue_case(rng)
+    if w < 11:
         return gen_xreq_case(rng)
     return gen_xrep_case(rng)
 
@@ -974,7 +1034,7 @@ def run(tier, seed, replay=None):
         return rep.finish()
     flags = fixed_flags()
     rng = random.Random(seed)
-    n = 312 if tier == "quick" else 7200
+    n = 338 if tier == "quick" else 7800
     STATS.clear()
     if replay:
         cases = [[l.strip() for l in open(replay) if l.strip() and not l.startswith("#")]]
@@ -999,18 +1059,20 @@ def run(tier, seed, replay=None):
     rep.cov["source_repairs_detected"] = flags
     rep.cov["spec_clauses_exercised"] = dict(sorted(STATS.items()))
     rep.cov["rule"] = ("random histories over the deterministic transport, same script on the real library and on the extracted models: "
-                       "REQ (4/12): socket context + 0-3 contexts, <= 3 pipes (right and wrong peer), resend time infinite / 5 s / 60 s per context, blocking and "
+                       "REQ (4/13): socket context + 0-3 contexts, <= 3 pipes (right and wrong peer), resend time infinite / 5 s / 60 s per context, blocking and "
                        "non-blocking sends and receives, cancels, raw repliers injecting current / stale / other contexts' / unknown ids, ids without the high bit, "
                        "ids not yet on the wire, ids relative to a seen id ([R<n>+k]: consecutive allocation makes the ids of abandoned, refused and queued requests "
                        "predictable), ids behind a backtrace word, duplicates, truncated replies, transport completions one at a time, connection loss, requests "
                        "queued for want of a pipe and abandoned (cancel / replaced / context closed) before a pipe connects; "
                        "on a repaired tree also resend-time changes and send cancels at any point; "
-                       "REQ directed (2/12, exact id bookkeeping): request abandoned before it reached the wire by cancel / aio timeout (virtual clock) / second send / "
+                       "REQ directed (2/13, exact id bookkeeping): request abandoned before it reached the wire by cancel / aio timeout (virtual clock) / second send / "
                        "context close / receive cancel / refused non-blocking send, then a pipe connects, the next request goes out and the peer answers the "
                        "abandoned id first; requests queued behind a busy pipe answered before they are on the wire and again afterwards; "
-                       "REP (3/12): TTL 1..15 (and invalid), backtraces of 0-20 words with / without / with a truncated id, 0-3 contexts, replies blocking and non-blocking, "
+                       "REP (3/13): TTL 1..15 (and invalid), backtraces of 0-20 words with / without / with a truncated id, 0-3 contexts, replies blocking and non-blocking, "
                        "busy pipes, cancels, pipe loss; every cooked send (REQ and REP) is given an empty header or 1-3 application header words (random, high bit set, "
                        "ids of live requests, pipe ids) that must not reach the wire; "
-                       "raw REQ (1/12) and raw REP (2/12): headers of 0-3 words, unknown / short pipe ids, queue depths 0-4, resizes.  "
+                       "REP directed (1/13): 2-4 contexts holding requests from the same pipe, replies queued behind the busy pipe / refused non-blocking and retried / "
+                       "cancelled / losing the pipe, taken one at a time, then a second reply without a new request (NNG_ESTATE); "
+                       "raw REQ (1/13) and raw REP (2/13): headers of 0-3 words, unknown / short pipe ids, queue depths 0-4, resizes.  "
                        "Oracle = the property's clauses evaluated on the implementation's observations (ids and pipes as tokens); non-trivial = some message moves")
     return rep.finish()
